@@ -545,4 +545,18 @@ theorem shannonDiscrete_spec (v : List ℝ) (base : ℝ) :
       - ∑ k ∈ v.toFinset, ((v.count k : ℝ) / v.length) * Real.log ((v.count k : ℝ) / v.length) / Real.log base :=
   shannonDiscrete_eq v base
 
+open scoped BigOperators in
+/-- `miDiscrete` is `Σ_{(a,b)} (c_ab/n)·ln(c_ab·n/(c_a·c_b))/ln base` over the distinct observed
+pairs, `c_ab`, `c_a`, `c_b` the joint and marginal occurrence counts -/
+theorem miDiscrete_spec (v1 v2 : List ℝ) (base : ℝ) (h : v1.length = v2.length) :
+    miDiscrete v1 v2 base = .ok (∑ p ∈ (List.zip v1 v2).toFinset,
+      (((List.zip v1 v2).count p : ℝ) / v1.length) *
+        Real.log (((List.zip v1 v2).count p : ℝ) * v1.length / ((v1.count p.1 : ℝ) * (v2.count p.2 : ℝ))) / Real.log base) :=
+  miDiscrete_eq v1 v2 base h
+
+/-- samples of different lengths are reported by DimensionException -/
+theorem miDiscrete_mismatch_raises (v1 v2 : List ℝ) (base : ℝ) (h : v1.length ≠ v2.length) :
+    miDiscrete v1 v2 base = .error .dimension := by
+  simp [miDiscrete, h]
+
 end Bpp.C07
